@@ -83,6 +83,11 @@ func runC04Case(c *Ctx, kind string, input []rune) {
 func propC04(c *Ctx) {
 	propScaleTokenizers(c, "C04")
 	propLongSymbols(c)
+	nCfg := 400
+	if c.Thorough {
+		nCfg = 8000
+	}
+	propCfgKinds(c, nCfg, func(kind string, in []rune) { runC04Case(c, kind, in) })
 	kinds := append([]string{"g", "e", "m"}, csvKinds(c)...)
 	// characters that tempt a "clean-up" at the edges of the input: byte order mark, NUL, line and paragraph
 	// separators, U+0100 (first character above the direct table), the last BMP characters
@@ -271,6 +276,16 @@ func propC12Retention(c *Ctx) {
 func propC12(c *Ctx) {
 	propScaleTokenizers(c, "C12")
 	propC12Retention(c)
+	nCfg := 300
+	if c.Thorough {
+		nCfg = 6000
+	}
+	propCfgKinds(c, nCfg, func(kind string, in []rune) {
+		if c.Rng.Intn(3) == 0 {
+			in = append(append(append([]rune(nil), in...), '\n', '\r'), in...)
+		}
+		runC12Case(c, kind, []int{0, 127, 2 | 4 | 8 | 64, 16 | 32}, in)
+	})
 	kinds := []string{"g", "e", "m", "c:44:34"}
 	alpha := []rune{'a', '1', ' ', '\n', '\r', '"', '/', '*', '-', '{', '}', ',', 0x4e16}
 	maxL := 3
@@ -363,6 +378,13 @@ func runC15Case(c *Ctx, kind string, optSets []int, input []rune) {
 
 func propC15(c *Ctx) {
 	propScaleTokenizers(c, "C15")
+	nCfg := 300
+	if c.Thorough {
+		nCfg = 6000
+	}
+	propCfgKinds(c, nCfg, func(kind string, in []rune) {
+		runC15Case(c, kind, []int{1 + c.Rng.Intn(127), 1 + c.Rng.Intn(127), 127, 64 | 16, 32}, in)
+	})
 	// tokens of every public type: HexDecimal comes from a user number state only
 	for _, k := range []string{"h", "H"} {
 		for _, in := range []string{"a 12 0x1F 3.5 0 0xZ 07", "0x1F", "0xff+0X0a", "x=0x10 # c\n 0x", "'0x1' 0x2  0x3", "1 0x1 1.0 0x"} {
